@@ -423,6 +423,13 @@ class STypedInt(SInt):
 def construct(I, cls, args, kwargs):
     if cls in BUILTIN_TYPE_MODELS:
         return BUILTIN_TYPE_MODELS[cls](I, args, kwargs)
+    import collections as _collections
+
+    if cls is _collections.defaultdict and len(args) == 1 and isinstance(args[0], Model) and not kwargs:
+        # defaultdict(list) / (dict) / (set): the factory is the engine's name for the builtin type
+        real = {"list": list, "dict": dict, "set": set, "int": int}.get(args[0].name)
+        if real is not None:
+            return _collections.defaultdict(real)
     if cls is functools.partial:
         return functools.partial(*args, **kwargs)  # a closure over engine values; calls are dispatched by the engine
     if isinstance(cls, enum.EnumMeta):
